@@ -6,12 +6,15 @@ package main
 //	(target kinds, source kinds, the expression assigned to the verdict variable)
 //
 // one row per inner case of `switch <target kind> { case …: switch <source kind> { case …: fits = <expr> } }`, plus the
-// condition under which the hook returns an error and the table of `kindBits`.  Locals are printed by number
-// (configCanonLocals), so renaming them does not disturb the pin; the order of the cases does not matter (rows sorted).
+// condition under which the hook returns an error and the table of `kindBits`.  Locals are replaced by the expressions
+// they are bound to (only the parameters remain, numbered by position), so renaming or reordering the declarations does
+// not disturb the pin; the order of the cases does not matter (rows sorted).
 
 import (
 	"fmt"
 	"go/ast"
+	"go/token"
+	"regexp"
 	"sort"
 	"strings"
 
@@ -30,10 +33,46 @@ func configNumberRange(t *tr, p *packages.Package) string {
 	var b strings.Builder
 	var rows [][3]string
 	refuses := ""
+	verdict := ""
+	defs := map[string]string{}
+	inline := func(e string) string {
+		for round := 0; round < 6; round++ {
+			changed := false
+			for name, def := range defs {
+				if def == "" || def == "true" || def == "false" {
+					continue
+				}
+				re := regexp.MustCompile(`\b` + regexp.QuoteMeta(name) + `\b`)
+				if re.MatchString(e) {
+					e = re.ReplaceAllLiteralString(e, def)
+					changed = true
+				}
+			}
+			if !changed {
+				break
+			}
+		}
+		return e
+	}
 	var bitsRows [][2]string
 	bitsDefault := ""
 	if fd := findFunc(p, "NumberRangeHook"); fd != nil {
 		restore := configCanonLocals(p, fd)
+		// single definitions `x := e` (anywhere in the body): a row shows the expression with such locals replaced by what
+		// they are bound to, so that only the parameters (x0 source kind, x1 target kind, x2 the data) remain — the order
+		// in which the locals are declared does not matter
+		ast.Inspect(fd.Body, func(n ast.Node) bool {
+			if as, ok := n.(*ast.AssignStmt); ok && as.Tok == token.DEFINE && len(as.Lhs) == 1 && len(as.Rhs) == 1 {
+				if id, ok := as.Lhs[0].(*ast.Ident); ok {
+					if _, dup := defs[id.Name]; dup {
+						defs[id.Name] = "" // defined twice under one canonical name: not inlined
+					} else {
+						defs[id.Name] = cfSrc(p, as.Rhs[0])
+					}
+				}
+			}
+			return true
+		})
 		for _, st := range fd.Body.List {
 			switch x := st.(type) {
 			case *ast.SwitchStmt:
@@ -50,7 +89,12 @@ func configNumberRange(t *tr, p *packages.Package) string {
 							expr := ""
 							if len(icc.Body) == 1 {
 								if as, ok := icc.Body[0].(*ast.AssignStmt); ok && len(as.Lhs) == 1 && len(as.Rhs) == 1 {
-									expr = cfSrc(p, as.Lhs[0]) + " = " + cfSrc(p, as.Rhs[0])
+									if verdict == "" {
+										verdict = cfSrc(p, as.Lhs[0])
+									}
+									if cfSrc(p, as.Lhs[0]) == verdict {
+										expr = inline(cfSrc(p, as.Rhs[0]))
+									}
 								}
 							}
 							if expr == "" {
@@ -63,6 +107,9 @@ func configNumberRange(t *tr, p *packages.Package) string {
 			case *ast.IfStmt:
 				if strings.HasPrefix(cfSrc(p, x.Body), "{ return nil,") {
 					refuses = cfSrc(p, x.Cond)
+					if verdict != "" {
+						refuses = regexp.MustCompile(`\b`+regexp.QuoteMeta(verdict)+`\b`).ReplaceAllLiteralString(refuses, "VERDICT")
+					}
 				}
 			}
 		}
@@ -100,8 +147,8 @@ func configNumberRange(t *tr, p *packages.Package) string {
 	for _, r := range rows {
 		q = append(q, fmt.Sprintf("(%q, %q, %q)", r[0], r[1], r[2]))
 	}
-	b.WriteString("/-- `NumberRangeHook` (if present): (target kinds, source kinds, the verdict assigned) per inner case, sorted; x0 the source\n")
-	b.WriteString("kind, x1 the target kind, x2 the data, x3 its reflect.Value, x4 the verdict, x5 the width of the target -/\n")
+	b.WriteString("/-- `NumberRangeHook` (if present): (target kinds, source kinds, the verdict assigned) per inner case, sorted; locals are\n")
+	b.WriteString("replaced by what they are bound to: x0 the source kind, x1 the target kind, x2 the data -/\n")
 	b.WriteString("def numberRangeTable : List (String × String × String) := [" + strings.Join(q, ",\n  ") + "]\n")
 	b.WriteString(fmt.Sprintf("/-- `NumberRangeHook` returns an error exactly under this condition -/\ndef numberRangeRefuses : String := %q\n", refuses))
 	b.WriteString("/-- `kindBits`: kinds ↦ width; any other kind (Int, Uint) -/\ndef kindBitsTable : List (String × String) := " + cfPairs(bitsRows) + "\n")
